@@ -3,6 +3,7 @@
 import importlib
 import json
 import logging
+import os
 import sys
 import time
 import traceback
@@ -23,6 +24,21 @@ def main():
     status = "ok"
     err = None
     cover = None
+    full = None
+    if os.environ.get("VERIF_FULLCOVER"):
+        # tools/reach.py: which lines of the whole package does this shard execute?
+        full = set()
+        mon = sys.monitoring
+        root = os.path.join(str(env.REPO), "src", "tola")
+        mon.use_tool_id(5, "vf-reach")
+
+        def on_line(code, line, _full=full, _root=root, _dis=mon.DISABLE):
+            if code.co_filename.startswith(_root):
+                _full.add((code.co_filename[len(_root) + 1:], line))
+            return _dis
+
+        mon.register_callback(5, mon.events.LINE, on_line)
+        mon.set_events(5, mon.events.LINE)
     try:
         mod = importlib.import_module(f"vf.props.{prop.lower()}")
         if shard.get("replay") is None:
@@ -44,6 +60,10 @@ def main():
             res["cover"] = cover.result()
         except Exception as e:  # noqa: BLE001
             res["cover"] = {"functions": {}, "errors": [f"cover: {e}"]}
+    if full is not None:
+        sys.monitoring.set_events(5, 0)
+        with open(os.path.join(os.environ["VERIF_FULLCOVER"], f"{prop}-{shard.get('index', 0)}-{os.getpid()}.json"), "w") as fh:
+            json.dump(sorted(full), fh)
     res["status"] = status
     res["error"] = err
     res["wall_s"] = time.time() - t0
